@@ -249,6 +249,12 @@ func (m *GoModel) parseCtor(info *types.Info) {
 						continue
 					}
 				}
+				// a helper the checker has no kind for: a function value bound to a local is inert by itself
+				// (calls of it outside closures are still caught by the laziness rule R15.2)
+				if _, isSel := rhs.(*ast.SelectorExpr); isSel {
+					m.Helpers[lobj] = "other:" + lid.Name
+					continue
+				}
 				m.problem(s.Pos(), "unrecognised helper definition %s", lid.Name)
 				continue
 			}
